@@ -21,7 +21,7 @@ import (
 var verifStubs_VerifC13Tree = verifStubsScan
 
 // vcIgnorer: deterministic per (path, directory) as a real ignorer is; at most
-// `budget` keys are ignored, chosen among the candidate paths (nil = any path).
+// `budget` keys are ignored, chosen among the candidate paths (all = any path).
 // The other keys are nominal, or unignored when the name ends in 'b' (the two
 // behave alike without ignore masks, so no fork is spent on them).
 type vcIgnorer struct {
@@ -102,9 +102,9 @@ func vcSlot(d *vfNode, name string, small bool) {
 //
 // a/a carries its parent's name (a baseline handed down from the wrong level
 // would match it), a/b does not (a dirty lookup by name instead of by path
-// would miss it).  shape 2: the same skeleton with forked kinds at a/b/a, a/a
-// and c.  shape 3: a two-level tree root{a{a:slot b:slot} b:slot} with every
-// kind at every slot.
+// would miss it).  shape 2: the same skeleton with forked kinds at a/b/a and
+// c.  shape 3: a two-level tree root{a{a:slot b:slot} b:slot} with every kind
+// at every slot.
 func vcShape(shape int) (*vfNode, []string) {
 	root := vcDir()
 	if shape == 3 {
@@ -133,7 +133,7 @@ func vcShape(shape int) (*vfNode, []string) {
 	root.add("a", a)
 	root.add("b", b)
 	if shape == 2 {
-		vcSlot(root, "c", false)
+		vcSlot(root, "c", true)
 	} else {
 		root.add("c", vcFile(1, 0644))
 	}
